@@ -17,6 +17,7 @@ def Allowed (s : St) : Cb → Prop
   | .ehlo _ | .helo _ => s.bannered = true
   | .starttls => s.extTls = true ∧ s.ehloAs.isSome = true
   | .rset | .noop | .quit => True
+  | .custom name _ => name ∈ s.custom          -- a command the application defined: any time
   | _ => False
 
 macro "allowed_tac" : tactic => `(tactic| (simp_all [Allowed, Option.isSome_iff_ne_none, Option.isNone_iff_eq_none] <;> try (split <;> simp_all)))
@@ -202,7 +203,11 @@ theorem step_shape (v : Verdicts) (s : St) (cmd : Option (Bytes × Option Bytes)
                     · simp only [stepNoop, callback]; exact finish_shape _ _ _ _ (by simp [Allowed])
                     · split
                       · exact stepQuit_shape _ _ _
-                      · exact rej _ s 500 (by simp)
+                      · split
+                        · rename_i hcu
+                          simp only [stepCustom, callback]
+                          exact finish_shape _ _ _ _ (by simpa [Allowed] using hcu)
+                        · exact rej _ s 500 (by simp)
 
 def replies (evs : List Event) : List Nat := evs.filterMap fun e => match e with | .reply c => some c | _ => none
 def callbacks (evs : List Event) : List Cb := evs.filterMap fun e => match e with | .cb c => some c | _ => none
@@ -348,40 +353,48 @@ theorem quit_keeps (v s arg) : (stepQuit v s arg).1.haveMail = s.haveMail ∧ (s
   simp only [stepQuit, callback]
   split <;> simp [finish_state]
 
+theorem custom_keeps (v : Verdicts) (s : St) (name : Bytes) (arg : Option Bytes) :
+    (stepCustom v s name arg).1.haveMail = s.haveMail ∧ (stepCustom v s name arg).1.haveRcpt = s.haveRcpt := by
+  simp [stepCustom, callback, finish_state]
+
 /-- **No command other than MAIL raises the sender flag, none other than RCPT the recipient flag**
     (they leave the flag alone or clear it), for every command line. -/
 theorem flags_raised_only_by_their_command (v : Verdicts) (s : St) (name : Bytes) (arg : Option Bytes) :
     (¬ cmdIs name "MAIL" = true → KeepsMail s (step v s (some (name, arg))).1) ∧
     (¬ cmdIs name "RCPT" = true → KeepsRcpt s (step v s (some (name, arg))).1) := by
+  have km : ∀ s' : St, s'.haveMail = s.haveMail → KeepsMail s s' := fun _ h => Or.inl h
+  have kr : ∀ s' : St, s'.haveRcpt = s.haveRcpt → KeepsRcpt s s' := fun _ h => Or.inl h
   constructor
   · intro hn
     simp only [step]
     repeat' split
     all_goals first
-      | exact (hello_keeps _ _ _ _).1
-      | exact (starttls_keeps _ _ _).1
+      | (exfalso; exact hn (by assumption))
+      | with_reducible exact (hello_keeps _ _ _ _).1
+      | with_reducible exact (starttls_keeps _ _ _).1
       | (rw [auth_keeps]; exact Or.inl rfl)
-      | exact rcpt_keeps_mail _ _ _
-      | exact (data_keeps _ _ _).1
-      | exact (rset_keeps _ _ _).1
-      | exact Or.inl (noop_keeps _ _).1
-      | exact Or.inl (quit_keeps _ _ _).1
+      | with_reducible exact rcpt_keeps_mail _ _ _
+      | with_reducible exact (data_keeps _ _ _).1
+      | with_reducible exact (rset_keeps _ _ _).1
+      | (with_reducible apply km; with_reducible exact (noop_keeps _ _).1)
+      | (with_reducible apply km; with_reducible exact (quit_keeps _ _ _).1)
+      | (with_reducible apply km; with_reducible exact (custom_keeps _ _ _ _).1)
       | exact Or.inl rfl
-      | (exfalso; simp_all)
   · intro hn
     simp only [step]
     repeat' split
     all_goals first
-      | exact (hello_keeps _ _ _ _).2
-      | exact (starttls_keeps _ _ _).2
+      | (exfalso; exact hn (by assumption))
+      | with_reducible exact (hello_keeps _ _ _ _).2
+      | with_reducible exact (starttls_keeps _ _ _).2
       | (rw [auth_keeps]; exact Or.inl rfl)
-      | exact mail_keeps_rcpt _ _ _
-      | exact (data_keeps _ _ _).2
-      | exact (rset_keeps _ _ _).2
-      | exact Or.inl (noop_keeps _ _).2
-      | exact Or.inl (quit_keeps _ _ _).2
+      | with_reducible exact mail_keeps_rcpt _ _ _
+      | with_reducible exact (data_keeps _ _ _).2
+      | with_reducible exact (rset_keeps _ _ _).2
+      | (with_reducible apply kr; with_reducible exact (noop_keeps _ _).2)
+      | (with_reducible apply kr; with_reducible exact (quit_keeps _ _ _).2)
+      | (with_reducible apply kr; with_reducible exact (custom_keeps _ _ _ _).2)
       | exact Or.inl rfl
-      | (exfalso; simp_all)
 
 /-! ### non-vacuity -/
 
